@@ -319,6 +319,20 @@ Example C13_example_aggregator :
     = Some ([VList false [VInt 1; VList false [s 97; s 98]]], Some EIndex).
 Proof. vm_compute. repeat split. Qed.
 
+(* collection.name (`[{a => 1}, {a => 2}].a`) is the map of the CONTEXT's member access over the elements: the standard
+   context's d[key] (KeyError on a missing key), yaql.legacy's d.get(key) (null), a host overload of `.` for mappings
+   (d.get(key, c)); the first refusing element ends the lazy sequence with its own error *)
+Theorem C13_collection_attribution : forall acc name,
+  (forall l, Forall (fun x => exists v, access_elem acc name x = Ok v) l ->
+     access_all acc name l = Some (map (access_val acc name) l, None)) /\
+  (forall l1 x r e, Forall (fun y => exists v, access_elem acc name y = Ok v) l1 -> access_elem acc name x = Err e ->
+     access_all acc name (l1 ++ x :: r) = Some (map (access_val acc name) l1, Some e)) /\
+  (forall m d, (forall c, exists v, access_elem (AccHost c) name (VDict m d) = Ok v) /\
+     (exists v, access_elem AccLegacy name (VDict m d) = Ok v) /\
+     (dict_get_l (VStr name) d = None -> access_elem AccStd name (VDict m d) = Err EKey) /\
+     (forall v acc', dict_get_l (VStr name) d = Some v -> access_elem acc' name (VDict m d) = Ok v)).
+Proof. exact (fun acc name => conj (access_all_map acc name) (conj (access_all_error acc name) (access_elem_cases name))). Qed.
+
 (* non-vacuity: the model at work on concrete inputs *)
 Example C13_example_order :
   order_by_l [(LMod 2, false); (LId, true)] [VInt 3; VInt 2; VInt 1; VInt 4; VInt 3] = [VInt 1; VInt 3; VInt 3; VInt 2; VInt 4].
@@ -335,3 +349,4 @@ Print Assumptions C13_order_by.
 Print Assumptions C13_group_by.
 Print Assumptions C13_stream_is_list.
 Print Assumptions C13_group_by_aggregator.
+Print Assumptions C13_collection_attribution.
